@@ -1,6 +1,7 @@
 import QcoVerif.Properties.C02
 import QcoVerif.Lemmas.BuilderSrc
 import QcoVerif.Generated.Limits
+import QcoVerif.Lemmas.FacadeSrc
 /-
   C02 — tie to the SOURCE TEXT (DESIGN.md §2.3b).  Kept in a file of its own that nothing imports: a change of the translated
   source functions breaks THESE obligations only, not the build of the property files that import Properties/C02.lean.
@@ -56,5 +57,54 @@ end BuilderSourceTie
     graphs of fewer layers.  The bound they are stated for is the one the pinned code has: lowering it breaks this obligation
     (and the harness then builds a chain deeper than the new bound). -/
 theorem graph_depth_bound_pinned : 5000 ≤ Qco.Gen.maxGraphDepth := by decide
+
+
+/-! ### the facade `DeclarativeCircuit` as written (Lemmas/FacadeSrc.lean; DESIGN.md §2.3b) -/
+
+section Facade
+open Qco.Py Qco.Gen.PySrc Qco.BuilderSrc Qco.FacadeSrc
+
+/-- a `DeclarativeCircuit` with identity `i`: its structure, its list of added operations, its registry. -/
+def declObj (i : Nat) (st added reg : Val) : Val :=
+  .obj "DeclarativeCircuit" i [("_structure", st), ("_added_operations", added), ("_acquisition_registry", reg),
+                               ("nr_qubits", .int 0), ("circuit_structure", st), ("acquisition_registry", reg)]
+
+def stObj (i : Nat) (extra : List (String × Val)) : Val := .obj "CircuitCompositeOperation" i extra
+def addedObj : Val := .obj "list" 90 []
+def regObj : Val := .obj "AcquisitionRegistry" 91 []
+
+/-- **`add_operation`**: the operation ITSELF is added to the structure and recorded; it is what is returned. -/
+theorem facade_add_operation_matches_source (op : Val) (hop : op = .obj "Operation" 7 []) :
+    callEffects builderEnv Decl_add_operation [declObj 1 (stObj 2 []) addedObj regObj, op] =
+      [Val.tuple [.str "call", stObj 2 [], .str "add", op],
+       Val.tuple [.str "call", addedObj, .str "append", op]] ∧
+    callFn builderEnv Decl_add_operation [declObj 1 (stObj 2 []) addedObj regObj, op] = op :=
+  FacadeSrc.add_operation_matches_source op hop
+
+/-- **`add_sub_circuit`**: the sub-circuit is COPIED with the transfer table `{sub-circuit ↦ own structure}` (one entry, exactly this
+    one), the COPY is added to the structure and recorded, and the copy is what is returned. -/
+theorem facade_add_sub_circuit_matches_source (cp : Val) (hcp : cp = .obj "CircuitCompositeOperation" 8 []) :
+    let sub := Val.obj "CircuitCompositeOperation" 5 [("copy()", cp)]
+    callEffects builderEnv Decl_add_sub_circuit [declObj 1 (stObj 2 []) addedObj regObj, sub] =
+      [Val.tuple [.str "call", stObj 2 [], .str "add", cp],
+       Val.tuple [.str "call", addedObj, .str "append", cp]] ∧
+    callFn builderEnv Decl_add_sub_circuit [declObj 1 (stObj 2 []) addedObj regObj, sub] = cp :=
+  FacadeSrc.add_sub_circuit_matches_source cp hcp
+
+/-- the transfer table `add_sub_circuit` hands to `copy`: one pair, sub-circuit ↦ own structure. -/
+theorem facade_add_sub_circuit_lookup (sub st : Val) :
+    eval builderEnv (Vars.set (Vars.set [] "self" (declObj 1 st addedObj regObj)) "operation" sub)
+      (.call "dict_of" [.name "operation", .attr (.name "self") "_structure"]) = .list [.tuple [sub, st]] :=
+  FacadeSrc.add_sub_circuit_lookup sub st
+
+/-- **`get_last_entry`**: the last element of the list of added operations; raises on an empty circuit. -/
+theorem facade_get_last_entry_matches_source (l : List Nat) :
+    callFn builderEnv Decl_get_last_entry [declObj 1 (stObj 2 []) (.list (l.map plainOp)) regObj] =
+      (match l.getLast? with
+       | some n => plainOp n
+       | none => .err "raised: NoReferenceOperationException") :=
+  FacadeSrc.get_last_entry_matches_source l
+
+end Facade
 
 end Qco.C02
